@@ -168,6 +168,8 @@ pub struct PeerShared {
     pub received: Mutex<Vec<u8>>,
     pub stop: AtomicBool,
     pub paused: AtomicBool,
+    /// set by the peer thread while it honours `paused` (it does not touch the descriptor then)
+    pub parked: AtomicBool,
     pub da1_requests: AtomicU64,
     pub answer_da1: AtomicBool,
     pub hung_up: AtomicBool,
@@ -184,6 +186,7 @@ impl Peer {
             received: Mutex::new(Vec::new()),
             stop: AtomicBool::new(false),
             paused: AtomicBool::new(false),
+            parked: AtomicBool::new(false),
             da1_requests: AtomicU64::new(0),
             answer_da1: AtomicBool::new(true),
             hung_up: AtomicBool::new(false),
@@ -199,9 +202,11 @@ impl Peer {
                     break;
                 }
                 if sh.paused.load(Ordering::SeqCst) {
+                    sh.parked.store(true, Ordering::SeqCst);
                     std::thread::sleep(Duration::from_micros(300));
                     continue;
                 }
+                sh.parked.store(false, Ordering::SeqCst);
                 let mut pfd = libc::pollfd { fd: master, events: libc::POLLIN, revents: 0 };
                 let rc = unsafe { libc::poll(&mut pfd, 1, 10) };
                 if rc <= 0 {
@@ -297,6 +302,15 @@ impl Peer {
             } else if last_progress.elapsed() > idle_limit {
                 return false;
             }
+        }
+    }
+
+    /// make the peer thread stop using the master descriptor and wait until it has
+    pub fn park(&self) {
+        self.shared.paused.store(true, Ordering::SeqCst);
+        let deadline = Instant::now() + Duration::from_secs(2);
+        while !self.shared.parked.load(Ordering::SeqCst) && Instant::now() < deadline {
+            std::thread::sleep(Duration::from_micros(200));
         }
     }
 
